@@ -41,6 +41,14 @@ CHECKS = {
          "On every repository any process loads (after write_index, reload from disk, merge of concurrent operations' indexes, forced rebuild) has_id for all visible commits, is_ancestor for all pairs, heads and common_ancestors of drawn subsets and change-id resolution are compared with the graph read from the backend (graphs up to 70 commits).",
          "Generation numbers are not exposed by the Index trait and are not compared.",
          "§4 C18"),
+ "C22": ("reposim", "exploration", "deterministic simulation of concurrent transactions; changed-path index built incrementally, rebuilt with drawn max_commits and merged from concurrent operations; monitor on every loaded repository + indexed/un-indexed files() comparison at quiescence",
+         "Same engine with the changed-path index enabled from the start (built with max_commits 1000/1/2) and rebuilt by reindex commands (max_commits 1/3/10/1000) between concurrent transactions that write nested paths, deletions, same-content edits, one-line edits of shared five-line files, merge commits taking the automatic merge of their parents, and 'diamond' merges whose parents merge at the content level or conflict. On every repository any process loads or commits, for every visible commit the index has paths for: the recorded paths (no duplicates) must equal the paths of diff(merge_commit_trees(parents), commit tree). At quiescence files(path) for every path/prefix of the universe is evaluated on the indexed repository and on a copy whose index was emptied and rebuilt without changed paths; the commit sets must be equal. One known finding (inherited unresolvable conflict in a merge commit) is recognised narrowly and reported as KNOWN-FINDING.",
+         "Paths come from a universe of 9 files in 3 directories; copy records are not generated; the un-indexed reference for per-commit paths is jj's own tree diff and merge_commit_trees.",
+         "§4 C22"),
+ "C46": ("reposim", "exploration", "deterministic simulation of concurrent transactions with rewrite chains, squashes, splits, divergent rewrites, op-restore transactions and reconcile merges; evolution walk checked against the recorded rewrite relation at quiescence",
+         "Same engine; transactions rewrite commits (also repeatedly within one transaction), squash two commits into one (two predecessors, preferring pairs that share an evolution ancestor), split (second commit with a new change id and the same predecessor), rewrite divergently, abandon, and - in half of the C46 runs - replace the whole view by an older operation's (op restore); jj's own reconcile merges rebase descendants concurrently. At quiescence, for every visible commit (up to 40) walk_predecessors must terminate within a bound without error, start with the commit, list no commit twice, list every commit that published transactions (model) or the commit objects' predecessor fields (covers jj's own reconcile rewrites) say it was rewritten from, list nothing else, and list each commit after every commit rewritten from it. One known finding (commits made by the unpublished virtual-base merge of a criss-cross operation merge) is recognised narrowly.",
+         "The op-restore transactions are generated only in C46 runs (the C13 intent model cannot follow them). Predecessor cycles cannot arise with content-hashed ids and distinct timestamps, so CycleDetected is only checked as 'no error'.",
+         "§4 C46"),
  "C23": ("wcsim", "exploration", "deterministic simulation of the working copy under a simulated coarse file-system clock (hook H3), seeded user-edit / jj-operation histories; oracle: snapshot tree == disk read by the harness",
          "Seeded histories of user edits (write, same-size rewrite, delete, chmod, symlink, file<->directory swap, touch) interleaved with the real TreeState::snapshot / check_out / set_sparse_patterns / reload on tmpfs; after every snapshot the recorded tree must equal what the harness itself reads from disk (content after EOL normalisation, exec bit, symlink target, vanished paths, ignored-but-tracked rule), path by path. The clock advances only when the chooser says so, so clean-by-mtime and must-re-read paths both occur. One genuine defect found and repaired (directory with conflicted content replaced by a file).",
          "Ignore patterns are limited to anchored literal forms; nested ignore files are not generated; one simulated process.",
